@@ -24,8 +24,21 @@ func (e *Engine) newMap(st *State) Value {
 	return RefV{r}
 }
 
-func (e *Engine) mapKey(st *State, k Value, n ast.Node) T {
+func (e *Engine) mapKey(st *State, k Value, n ast.Node, kts ...types.Type) T {
 	switch x := k.(type) {
+	case ArrV:
+		// byte-array keys (hashes): the key is the string of the array's bytes
+		var kt types.Type
+		if len(kts) > 0 {
+			kt = kts[0]
+		} else if ex, ok := n.(ast.Expr); ok && n != nil {
+			kt = e.typeOf(ex)
+		}
+		if kt != nil {
+			if at, ok := under(kt).(*types.Array); ok && isByteLike(at.Elem()) {
+				return e.strOf(st, Sel(st.Mem, x.blk), I(0), I(at.Len()))
+			}
+		}
 	case IntV:
 		return x.t
 	case StrV:
@@ -79,8 +92,8 @@ func (e *Engine) cellToValue(st *State, c T, t types.Type) Value {
 	case *types.Pointer, *types.Map, *types.Chan, *types.Signature:
 		if e.quant == 0 {
 			c = e.name("mv", c)
-			e.assume(st, And(Ge(c, I(0)), Lt(c, st.alloc)), "typed memory: map value reference")
 		}
+		e.assumeQ(st, And(Ge(c, I(0)), Lt(c, st.alloc)), "typed memory: map value reference")
 		return RefV{c}
 	default:
 		// boxed aggregate
@@ -121,7 +134,7 @@ func (e *Engine) mapIndex(st *State, n *ast.IndexExpr, commaOk bool) Value {
 func (e *Engine) mapStore(st *State, m Value, k Value, v Value, mt *types.Map) {
 	e.ensureMapHeaps(st)
 	ref := e.asInt(m, nil)
-	kt := e.mapKey(st, k, nil)
+	kt := e.mapKey(st, k, nil, mt.Key())
 	var cell T
 	if isScalarElem(mt.Elem()) {
 		switch x := v.(type) {
@@ -142,10 +155,10 @@ func (e *Engine) mapStore(st *State, m Value, k Value, v Value, mt *types.Map) {
 	st.ghost["MapV"] = e.name("MapV", Sto(st.ghost["MapV"], ref, Sto(Sel(st.ghost["MapV"], ref), kt, cell)))
 }
 
-func (e *Engine) mapDelete(st *State, m Value, k Value) {
+func (e *Engine) mapDelete(st *State, m Value, k Value, keyT types.Type) {
 	e.ensureMapHeaps(st)
 	ref := e.asInt(m, nil)
-	kt := e.mapKey(st, k, nil)
+	kt := e.mapKey(st, k, nil, keyT)
 	e.checkMapWrite(st, ref, "a map")
 	had := Eq(Sel(Sel(st.ghost["MapP"], ref), kt), I(1))
 	st.ghost["MapN"] = e.name("MapN", Sto(st.ghost["MapN"], ref, Sub(Sel(st.ghost["MapN"], ref), Ite(had, I(1), I(0)))))
@@ -224,7 +237,9 @@ func (e *Engine) execRangeMap(st *State, n *ast.RangeStmt, cx *Ctx, lc *LoopCont
 			And(Eq(Sel(back.ghost["MapP"], ref), Sel(mapP0, ref)), Eq(Sel(back.ghost["MapV"], ref), Sel(mapV0, ref))), n.Pos(), nil)
 		e.checkSteps(back, iterStart, lc, n.Pos())
 		e.visStack[len(e.visStack)-1] = e.name("visited", Sto(vis, k, I(1)))
+		e.invHead = iterStart
 		e.checkInvariants(back, lc, "inv-pres", n.Pos())
+		e.invHead = nil
 	}
 	e.visStack = e.visStack[:len(e.visStack)-1]
 	cx.returns = append(cx.returns, inner.returns...)
